@@ -7,7 +7,7 @@ import json, os, re, shutil, subprocess, sys
 
 ENV = dict(os.environ, GOFLAGS="-mod=mod", GOPROXY="off", GOSUMDB="off", GOTOOLCHAIN="local")
 ENV.pop("GOWORK", None)
-WT = "/tmp/vw"
+WT = os.environ.get("VW", "/tmp/vw")
 
 def sh(cmd, cwd=None, timeout=1800):
     p = subprocess.run(cmd, shell=True, cwd=cwd, env=ENV, capture_output=True, text=True, timeout=timeout)
